@@ -11,6 +11,7 @@ package main
 //       calls  F   sorted multiset of method / function names called in the body (List String)
 //       switch F   the case table of the first switch statement: labels ↦ returned expression
 //       src    F   the body, printed by go/printer with comments dropped (String)
+//       args   F   every call of the body with its argument expressions (List (String × List String))
 //       casebody F like switch, with the printed body of every clause instead of its return expression
 //
 // The output is compared inside Lean with hand-written expectations (Facts/Expected*.lean)
@@ -372,6 +373,8 @@ func extractMain(args []string) {
 					fmt.Fprintf(&lean, "def %s : String := \"<missing>\"\n", id)
 				case "calls", "globals":
 					fmt.Fprintf(&lean, "def %s : List String := [\"<missing>\"]\n", id)
+				case "args":
+					fmt.Fprintf(&lean, "def %s : List (String × List String) := [(\"<missing>\", [])]\n", id)
 				case "walk":
 					fmt.Fprintf(&lean, "def %s : List (String × String) := [(\"start\", \"<missing>\")]\n", id)
 				case "switch", "casebody":
@@ -423,6 +426,16 @@ func extractMain(args []string) {
 				}
 				fmt.Fprintf(&lean, "def %s : List (String × String) := [%s]\n", id, strings.Join(rows, ", "))
 				facts[id] = v
+			case "args":
+				// every call in the body (function literals included): callee name and the
+				// argument expressions as printed by go/printer with all white space removed
+				v := argsFact(fset, fd)
+				var rows []string
+				for _, r := range v {
+					rows = append(rows, fmt.Sprintf("(%s, [%s])", leanString(r[0]), joinLeanStrings(r[1:])))
+				}
+				fmt.Fprintf(&lean, "def %s : List (String × List String) := [%s]\n", id, strings.Join(rows, ", "))
+				facts[id] = v
 			case "src":
 				v := srcFact(fset, fd)
 				fmt.Fprintf(&lean, "def %s : String := %s\n", id, leanString(v))
@@ -460,6 +473,34 @@ func recvName(t ast.Expr) string {
 		return recvName(t.X)
 	}
 	return "?"
+}
+
+// argsFact: one row per call expression of the body, in source order: callee name (last
+// selector component) followed by its argument expressions, white space removed.
+func argsFact(fset *token.FileSet, fd *ast.FuncDecl) [][]string {
+	var rows [][]string
+	ast.Inspect(fd.Body, func(n ast.Node) bool {
+		call, ok := n.(*ast.CallExpr)
+		if !ok {
+			return true
+		}
+		name := ""
+		switch f := call.Fun.(type) {
+		case *ast.Ident:
+			name = f.Name
+		case *ast.SelectorExpr:
+			name = f.Sel.Name
+		default:
+			return true
+		}
+		row := []string{name}
+		for _, a := range call.Args {
+			row = append(row, strings.ReplaceAll(exprString(fset, a), " ", ""))
+		}
+		rows = append(rows, row)
+		return true
+	})
+	return rows
 }
 
 func exprString(fset *token.FileSet, e ast.Node) string {
